@@ -10,12 +10,14 @@ Executable model of
       create_divs_from_beats, create_beats_from_divs, note_array_to_score, create_part
       (the part that decides onsets, durations, pitches and the divisions of the new part)
 
-The time maps (beat_map, quarter_map: property C02) and the signature / measure maps
-(key_signature_map, time_signature_map, metrical_position_map: property C10) are *given*:
+In this file the time maps (beat_map, quarter_map: property C02) and the signature / measure maps
+(key_signature_map, time_signature_map, metrical_position_map: property C10) are parameters:
 a part carries them as functions of the integer time, and the table's columns are what
-these functions return at the note's onset (and offset).
+these functions return at the note's onset (and offset).  Model/NoteArrayMaps.lean instantiates
+them with the C02 / C10 models (`Desc.maps`, `rowsC`) and models the entry points.
 
-Mirrors the repaired behaviour of fixes/C05-*.patch.
+Mirrors the repaired behaviour of fixes/C05-*.patch (C05-8: `collapse_rests` decides adjacency on the
+division columns).
 Lean core + Model/Basic + Model/Pitch only.
 -/
 import PartituraModel.Model.Basic
